@@ -690,9 +690,21 @@ class Analysis:
                   "strtol", "strtoul", "strtoll", "strtoull", "strtoimax", "strtoumax", "strtod", "strtof", "strtold", "floor", "ceil", "sqrt"}
     NONNULL_CALLS = {"__ctype_b_loc", "__errno_location", "__ctype_tolower_loc", "__ctype_toupper_loc"}
 
+    # callback contracts (assumptions stated in the evidence): parser_input.getc behaves like fgetc()
+    FIELD_CONTRACTS = {"getc": (-(1 << 31), 255)}
+
     def ev_call(self, e, st, pure, root, T):
         name = callee_name(e)
         args = e.get("args", [])
+        if name is None and e.get("callee") is not None:
+            cal = strip(e["callee"], all_casts=True)
+            if cal.get("k") == "mem" and cal.get("f") in self.FIELD_CONTRACTS and "parser_input" in cal.get("rec", ""):
+                for a in args:
+                    self.ev(a, st, pure, root)
+                if not pure:
+                    self.kill_members(st)
+                lo, hi = self.FIELD_CONTRACTS[cal["f"]]
+                return AV(lo, hi)
         vals = []
         if e.get("obj") is not None:
             self.ev(e["obj"], st, pure, root)
@@ -1137,7 +1149,14 @@ class Analysis:
                                     out = None
                                     break
                     elif nsucc == 2 and cls in ("IfStmt", "WhileStmt", "ForStmt", "DoStmt", "ConditionalOperator", "BinaryOperator", "BinaryConditionalOperator"):
-                        out = self.propagate(self.refine(out, cond, si == 0))
+                        cs = strip(cond, all_casts=True)
+                        if cls != "BinaryOperator" and isinstance(cs, dict) and cs.get("k") == "bin" and cs.get("op") in ("&&", "||") and cval(cs) is None:
+                            # this block evaluates the last operand of the chain: the operands before it had the value
+                            # that let control get here (true for &&, false for ||)
+                            out = self.refine(out, cs["a"], cs["op"] == "&&")
+                            out = self.propagate(self.refine(out, cs["b"], si == 0)) if out is not None else None
+                        else:
+                            out = self.propagate(self.refine(out, cond, si == 0))
                         if out is not None and self.edge_hook:
                             # the operand that decides at *this* block: the rightmost one of a logical chain
                             dc = cond
